@@ -305,7 +305,7 @@ def draw_setup(
     *,
     halo_classes=HALO_CLASSES,
     profile_kinds=("closure", "synthetic", "constant"),
-    mode_classes=("full", "trunc", "over"),
+    mode_classes=("full", "trunc", "over", "mixed"),
     nmin=4,
     nmax=24,
     even=True,
@@ -340,7 +340,11 @@ def draw_setup(
         mc = str(rng.choice(list(mode_classes)))
         if (nxe % 2 or nye % 2) and mc != "over":
             mc = "over"
-        if mc == "full":
+        if mc == "mixed":  # every mode of the padded grid along one axis, a truncated count along the other
+            mx = max(2, nxe - 2 * int(rng.integers(1, max(2, nxe // 3))))
+            my = max(2, nye - 2 * int(rng.integers(1, max(2, nye // 3))))
+            modes = (nxe, my) if rng.random() < 0.5 else (mx, nye)
+        elif mc == "full":
             modes = (nxe, nye)
         elif mc == "over":
             modes = (nxe + 2 * int(rng.integers(0, 4)) + nxe % 2, nye + 2 * int(rng.integers(0, 4)) + nye % 2)
